@@ -610,6 +610,8 @@ class MQTTProtocol(MQTTBaseProtocol):
         for _, reply in self.factory.windowPubRelease[self.addr].items():
             self._retryRelease(reply, dup=True)
         for _, request in self.factory.windowPublish[self.addr].items():
+            if request.alarm is not None:
+                request.alarm.cancel()
             self._retryPublish(request, dup=True)
         for _, request in self.factory.windowSubscribe[self.addr].items():
             self._retrySubscribe(request, dup=True)
